@@ -7,6 +7,7 @@ states in a randomly chosen accepted dialect, so the expected tree after the
 first k patches (T_k) is known by construction, independently of any patch
 algorithm.  Failures are by construction too ("poison")."""
 
+import zlib
 import os
 import random
 
@@ -151,6 +152,9 @@ def mutate_content(r, data, max_edits=4):
 
 
 PREFIX_STYLE = ["plain"]   # set by render_patch for the patch being rendered
+INNER_SPELLING = [False]   # switched on by checks that compare runs with each other or by normalised names (C06, C07):
+                           # some patches then spell a name inside the tree as 'd//f' or 'd/./f' - the same file as 'd/f'
+INNER_STYLE = ["plain"]    # derived from the patch name (no random draw)
 
 
 def _prefix(strip, side):
@@ -167,6 +171,8 @@ def _prefix(strip, side):
 
 
 def _name(strip, side, path, orig=False):
+    if INNER_STYLE[0] != "plain" and "/" in path:
+        path = path.replace("/", "//" if INNER_STYLE[0] == "double" else "/./", 1)
     n = _prefix(strip, side) + path + (".orig" if orig else "")
     return quote_name(n.encode("utf-8", "surrogateescape") if isinstance(n, str) else n)
 
@@ -277,6 +283,7 @@ def render_patch(p, rnd):
     if getattr(p, "prefix_style", None) is None:
         p.prefix_style = "double-slash" if (p.strip >= 1 and rnd.random() < 0.07) else ("dot-slash" if ((p.strip == 0 or not p.git) and rnd.random() < 0.15) else "plain")
     PREFIX_STYLE[0] = p.prefix_style
+    INNER_STYLE[0] = ("double", "dot", "plain")[zlib.crc32(p.name.encode("utf-8", "surrogateescape")) % 3] if INNER_SPELLING[0] else "plain"
     try:
         for i, op in enumerate(p.ops):
             if not p.git and i > 0 and rnd.random() < 0.3:
@@ -284,6 +291,10 @@ def render_patch(p, rnd):
             parts.append(render_op(op, p.strip, p.reverse, p.git, rnd))
     finally:
         PREFIX_STYLE[0] = "plain"
+        INNER_STYLE[0] = "plain"
+    if p.git and zlib.crc32(p.name.encode("utf-8", "surrogateescape")) % 3 == 1:
+        # what git format-patch puts behind the last file patch (no random draw: derived from the patch name)
+        parts.append(b"-- \n2.43.0\n\n")
     p.text = b"".join(parts)
     opts = []
     if p.strip != 1:
